@@ -239,7 +239,7 @@ BOUND = {
     "FnEnter": {"C01", "C04", "C12", "C13", "C06"},
     "Api": {"C11", "C03", "C12", "C13", "C16", "C06", "C14"},
     "Deliver": {"C01", "C02", "C14", "C13", "C03", "C16"},
-    "InvEnd": {"C18", "C07", "C06", "C03"},
+    "InvEnd": {"C18", "C07", "C06", "C03", "C14", "C13", "C12"},
     "InvStart": {"C07"},
     "EnvTimer": {"C07", "C12"},
     "EnvExt": {"C14"},
